@@ -91,7 +91,15 @@ def worker(job):
         from vf.engine import explore, run_concrete
 
         H = harness_module(job["harness"])
-        inst = H.make(job)
+        try:
+            inst = H.make(job)
+        except Exception as e:
+            if str(job.get("pid", "")).startswith("rnd:"):
+                # a randomly drawn program the library refuses to compile is skipped
+                out.update(status="inconclusive", error=f"random program not compilable: {type(e).__name__}", paths=0)
+                out["wall_s"] = round(time.time() - t0, 2)
+                return out
+            raise
         res = explore(
             inst.body,
             budget_s=job.get("budget_s", 30),
